@@ -15,12 +15,14 @@
         'rewrites': [[r'this\.run_program\(prog, params\)', r'__o.run_program(this, prog)', 1],
                      [r'this\.display_error\(&mut params\.stderr\(this\), &err\)', r'__o.display_error(&err)', 1]]},
  'dash_c': {'file': 'brush-core/src/shell/execution.rs', 'start': r'pub async fn run_dash_c_command<S: Into<String>>\(', 'mode': 'fn_body', 'self_to': 'this', 'deasync': True,
-        'rewrites': [[r'this\.start_command_string_mode\(\)', r'__o.start_cs()', 1],
+        'rewrites': [[r'this\.default_exec_params\(\)', r'__o.params()', 1],
+                     [r'this\.start_command_string_mode\(\)', r'__o.start_cs()', 1],
                      [r'this\.run_string\(command, &source_info, &params\)', r'__o.run_string(this, command)', 1],
                      [r'this\.end_command_string_mode\(\)', r'__o.end_cs()', 1],
                      [r'this\.on_exit\(\)', r'__o.on_exit(this)', 1]]},
  'run_script': {'file': 'brush-core/src/shell/execution.rs', 'start': r'pub async fn run_script<S: Into<String>, P: AsRef<Path>, I: Iterator<Item = S>>\(', 'mode': 'fn_body', 'self_to': 'this', 'deasync': True,
-        'rewrites': [[r'this\s*\.parse_and_execute_script_file\(\s*script_path\.as_ref\(\),\s*args,\s*&params,\s*callstack::ScriptCallType::Run,\s*\)', r'__o.exec_file(this, script_path.as_ref(), args)', 1],
+        'rewrites': [[r'this\.default_exec_params\(\)', r'__o.params()', 1],
+                     [r'this\s*\.parse_and_execute_script_file\(\s*script_path\.as_ref\(\),\s*args,\s*&params,\s*callstack::ScriptCallType::Run,\s*\)', r'__o.exec_file(this, script_path.as_ref(), args)', 1],
                      [r'this\.on_exit\(\)', r'__o.on_exit(this)', 1]]},
  'exec_file': {'file': 'brush-core/src/shell/execution.rs', 'start': r'async fn parse_and_execute_script_file<', 'mode': 'fn_body', 'self_to': 'this', 'deasync': True,
         'rewrites': [[r'this\s*\.open_file\(&options, path, params\)', r'__o.open_file(path)', 1],
@@ -66,6 +68,8 @@ impl FOracle {
         o
     }
     fn tick(&mut self) -> u8 { self.t += 1; self.t }
+    /// default_exec_params(): the parameters are only passed on to the (oracle) program run
+    fn params(&self) -> u8 { 0 }
     fn result(&self) -> ExecutionResult { let mut r = ExecutionResult::new(self.code); r.next_control_flow = flow(self.flow); r }
     fn an_error(&self) -> error::Error { let e: error::Error = error::ErrorKind::NotArray.into(); if self.fatal { e.into_fatal() } else { e } }
     // ---- run_parsed_result
